@@ -231,3 +231,112 @@ Print Assumptions C02_setdef_tag2el_sorted.
 Theorem C02_setdef_dynamic_table_sorted : forall (l : list (Z * list Z)), StronglySorted key_le (sort_keyed l).
 Proof. exact sort_keyed_sorted. Qed.
 Print Assumptions C02_setdef_dynamic_table_sorted.
+(* ---- PrimB: restricted character strings (Rt/PrimB.v) ---- *)
+(* IA5String, VisibleString, PrintableString, NumericString, BMPString, UniversalString (and
+   UTF8String / the others as OCTET STRING with another tag).  [us] is the list of character
+   VALUES, [octets_of k us] the octets the C holds; the spec_* functions are the wording of
+   X.690 8.23, X.696 27, X.691 30 on [us].  std = false is what the C writes. *)
+From A1 Require Import Rt.Oer Rt.Alphabet Rt.PrimB Rt.PrimBFormat.
+
+(* -- DER: identifier (primitive), definite length, the characters as 1 / 2 / 4 octets each (8.23) -- *)
+Theorem C02_primb_pb_der_leaf_is_spec : forall tg k sz fr us,
+  pb_der (SStr [] (Str tg k sz fr)) (VOct (octets_of k us)) = Some (spec_der_str tg k us).
+Proof. exact pb_der_leaf_is_spec. Qed.
+Print Assumptions C02_primb_pb_der_leaf_is_spec.
+
+(* an EXPLICIT tag: a constructed TLV around the encoding below it *)
+Theorem C02_primb_pb_der_explicit_tag : forall e etags l v,
+  pb_der (SStr (e :: etags) l) v = option_map (tlv e true) (pb_der (SStr etags l) v).
+Proof. exact pb_der_explicit_tag. Qed.
+Print Assumptions C02_primb_pb_der_explicit_tag.
+
+(* -- OER: a fixed SIZE(n) of a known-multiplier type has no length determinant (X.696 27) -- *)
+Theorem C02_primb_pb_oer_leaf_is_spec : forall etags l us, oer_size_ok l us = true ->
+  pb_oer (SStr etags l) (VOct (octets_of (s_k l) us)) = Some (spec_oer_str l us).
+Proof. exact pb_oer_leaf_is_spec. Qed.
+Print Assumptions C02_primb_pb_oer_leaf_is_spec.
+
+Theorem C02_primb_pb_oer_fixed_size_refuses : forall etags l us n, oer_fixed l = Some n -> zlen us <> n ->
+  pb_oer (SStr etags l) (VOct (octets_of (s_k l) us)) = None.
+Proof. exact pb_oer_fixed_size_refuses. Qed.
+Print Assumptions C02_primb_pb_oer_fixed_size_refuses.
+
+(* -- UPER: the standard reading of the encoder is X.691 30 (30.4 extension, 30.5 bits and codes,
+      11.9 length) for every string over the alphabet ([chars_ok], Rt/PrimBFormat.v) -- *)
+Theorem C02_primb_uper_std_is_spec : forall l us,
+  known_mult (s_k l) = true ->
+  Forall (fun u => 0 <= u < 256 ^ Z.of_nat (bpc (s_k l))) us ->
+  chars_ok l us = true ->
+  uper_leaf true l (octets_of (s_k l) us) = spec_uper_km l us.
+Proof. exact uper_std_is_spec. Qed.
+Print Assumptions C02_primb_uper_std_is_spec.
+
+(* -- UPER: the C writes the standard reading when the size is in the root (or the SIZE is not
+      extensible) and the emitted per-character constraint agrees ([c_std_safe]) -- *)
+Theorem C02_primb_uper_c_is_std : forall l bs cs,
+  known_mult (s_k l) = true -> chunks (s_k l) bs = Some cs ->
+  wf_alphab (eff_alpha l) = true ->
+  c_std_safe l (zlen cs) = true ->
+  uper_leaf false l bs = uper_leaf true l bs.
+Proof. exact uper_c_is_std. Qed.
+Print Assumptions C02_primb_uper_c_is_std.
+
+Theorem C02_primb_uper_leaf_other_is_octets : forall std l bs, known_mult (s_k l) = false ->
+  uper_leaf std l bs = uper std (TOct (s_tg l) no_size) (VOct bs).
+Proof. exact uper_leaf_other_is_octets. Qed.
+Print Assumptions C02_primb_uper_leaf_other_is_octets.
+
+(* -- the two deviations of the C (known findings): 8 * octets-per-character bits outside the root of
+      an extensible SIZE; NumericString without constraints written as value - 32 in 4 bits -- *)
+Theorem C02_primb_uper_size_ext_refuted : exists l us,
+  uper_leaf false l (octets_of (s_k l) us) <> spec_uper_km l us /\
+  uper_leaf true l (octets_of (s_k l) us) = spec_uper_km l us.
+Proof. exact uper_size_ext_refuted. Qed.
+Print Assumptions C02_primb_uper_size_ext_refuted.
+
+Theorem C02_primb_uper_numeric_plain_refuted : exists l us,
+  uper_leaf false l (octets_of (s_k l) us) <> spec_uper_km l us /\
+  uper_leaf true l (octets_of (s_k l) us) = spec_uper_km l us.
+Proof. exact uper_numeric_plain_refuted. Qed.
+Print Assumptions C02_primb_uper_numeric_plain_refuted.
+
+(* -- totality: every string over the alphabet with a size in the root has an encoding -- *)
+Theorem C02_primb_uper_leaf_total : forall l us,
+  known_mult (s_k l) = true ->
+  Forall (fun u => 0 <= u < 256 ^ Z.of_nat (bpc (s_k l))) us ->
+  chars_ok l us = true ->
+  in_scon (size_con l) (zlen us) = true ->
+  exists bits, uper_leaf true l (octets_of (s_k l) us) = Some bits.
+Proof. exact uper_leaf_total. Qed.
+Print Assumptions C02_primb_uper_leaf_total.
+
+Theorem C02_primb_uper_leaf_total_c : forall l us,
+  known_mult (s_k l) = true ->
+  Forall (fun u => 0 <= u < 256 ^ Z.of_nat (bpc (s_k l))) us ->
+  chars_ok l us = true ->
+  in_scon (size_con l) (zlen us) = true ->
+  c_std_safe l (zlen us) = true ->
+  exists bits, uper_leaf false l (octets_of (s_k l) us) = Some bits /\
+               spec_uper_km l us = Some bits.
+Proof. exact uper_leaf_total_c. Qed.
+Print Assumptions C02_primb_uper_leaf_total_c.
+
+(* -- decisions in the code: the smallest number of bits (30.5.2), codes in canonical order (30.5.4 b) -- *)
+Theorem C02_primb_spec_bits_minimal : forall a, 1 <= card a ->
+  card a <= 2 ^ Z.of_nat (spec_bits a) /\
+  (spec_bits a <> 0%nat -> 2 ^ (Z.of_nat (spec_bits a) - 1) < card a).
+Proof. exact spec_bits_minimal. Qed.
+Print Assumptions C02_primb_spec_bits_minimal.
+
+Theorem C02_primb_idx_of_mono : forall a lo u v i j, wf_from lo a ->
+  idx_of a u = Some i -> idx_of a v = Some j -> u < v -> i < j.
+Proof. exact idx_of_mono. Qed.
+Print Assumptions C02_primb_idx_of_mono.
+
+(* -- third deviation: a multi-interval alphabet above U+00FF gets no character map; characters collide -- *)
+Theorem C02_primb_uper_holes_above_255_refuted :
+  uper_leaf false holes_l (octets_of KBMP [256; 512]) <> spec_uper_km holes_l [256; 512] /\
+  uper_leaf false holes_l (octets_of KBMP [256; 512]) = uper_leaf false holes_l (octets_of KBMP [256; 256]) /\
+  spec_uper_km holes_l [256; 512] = Some (nbits 8 2 ++ nbits 3 0 ++ nbits 3 4).
+Proof. exact uper_holes_above_255_refuted. Qed.
+Print Assumptions C02_primb_uper_holes_above_255_refuted.
